@@ -328,6 +328,25 @@ def do_cart(spec, rec, rng):
                 got = g.getMinimumRings(n)
                 if got != ref:
                     rec.violation("cart/minimum-rings", "getMinimumRings(%d)=%s expected %d (throughCentre=%s)" % (n, got, ref, through), {"n": n, "throughCenter": through})
+            # changePitch on grids built directly from constructor arguments with integer-valued offsets/steps (legal input)
+            for offs in ((1, 1, 0), (2, 3, 0), (1.0, 2.0, 0.0)):
+                iw, ih = rng.choice([(2, 2), (2, 4), (3, 1)])
+                gi = grids.CartesianGrid(unitSteps=((iw, 0, 0), (0, ih, 0), (0, 0, 0)), unitStepLimits=((-2, 3), (-2, 3), (0, 1)), offset=offs)
+                cells_ = [(0, 0, 0), (1, 2, 0), (-2, 1, 0), (-4, -4, 0)]
+                c0s = [gi.getCoordinates(k_) for k_ in cells_]
+                nw_, nh_ = rng.choice([(3.0, 3.0), (5.0, 1.0), (1.0, 1.0), (iw * 1.5, ih * 0.5)])
+                gi.changePitch(nw_, nh_)
+                rec.hit("changePitch")
+                for k_, c0 in zip(cells_, c0s):
+                    c1 = gi.getCoordinates(k_)
+                    exp = (c0[0] * nw_ / iw, c0[1] * nh_ / ih, c0[2])
+                    if not vclose(c1, exp, max(nw_, nh_)):
+                        rec.violation("cart/changePitch/integer-constructor-arguments", "grid(steps %sx%s, offset %s): after changePitch(%r,%r) centre of %s is %s, expected %s" % (iw, ih, offs, nw_, nh_, k_, list(c1), exp),
+                                      {"steps": [iw, ih], "offset": list(offs), "new": [nw_, nh_]})
+                        break
+                g3 = type(gi)(*gi.reduce())
+                if not all(vclose(g3.getCoordinates(k_), gi.getCoordinates(k_), max(nw_, nh_)) for k_ in cells_):
+                    rec.violation("cart/changePitch-then-reduce", "grid rebuilt from reduce() after changePitch differs", {"steps": [iw, ih], "offset": list(offs)})
             # changePitch: rescales coordinates (and offset), nothing else
             g2 = grids.CartesianGrid.fromRectangle(w_, h_, numRings=2, isOffset=not through, symmetry="full")
             before = {k_: (tuple(g2.getCoordinates(k_)), g2.getRingPos(k_)) for k_ in [(0, 0, 0), (1, 2, 0), (-2, 1, 0), (3, -1, 0)]}
